@@ -60,7 +60,7 @@ CHECKS["C15"] = ("Runner.tla/RunnerOps.tla model-checked (bounded termination, t
 NOTES_EXTRA["C03"] = RW_NOTE
 NOTES_EXTRA["C15"] = RW_NOTE
 NOTES_EXTRA["C14"] = CC_NOTE + " Constant folding with its modify hook: recorded rewriting runs of language A judged by TraceRewrite.tla (DumpOK)."
-CHECKS["C07"] = ("Proofs.tla (term-level proof checker: refl/sym/trans/cong up to per-side injective renamings, explicit leaves, conclusion) + TLC validating every recorded explanation DAG of the explanations build node by node (TraceProofs.tla, impl->spec)",
+CHECKS["C07"] = ("Proofs.tla (term-level proof checker: refl/sym/trans/cong up to per-side injective renamings, explicit leaves, conclusion) + TLC validating every recorded explanation DAG of the explanations build node by node, and every flat explanation (to_flat_string) as a chain of single rewrite steps (StepAt / FlatConcludes) (TraceProofs.tla, impl->spec)",
          "every explanation returned for equal pool terms in every SlottedCC history is a valid proof of the queried equation whose leaves are the asserted equations with their justifications; a panic is a violation", "5 C07")
 NOTES_EXTRA["C07"] = ("TLC evaluates Proofs.tla on every recorded proof node; histories are the TLC states of the SlottedCC universes. Trusted: TLC, get_syn_expr as the "
                       "term reading of proof equations, the recorder. Rule-application leaves are exercised through logged rule applications.")
@@ -78,7 +78,7 @@ man = {
    "enable": "rustflags in /verif/harness/.cargo/config.toml: --cfg slotted_egraphs_verif --check-cfg cfg(slotted_egraphs_verif); the harness depends on /repo by path and patches slotted-egraphs-derive to /repo/slotted-egraphs-derive",
    "baseline_off_cmd": "cd /repo && cargo test --workspace --no-fail-fast --offline",
    "source_commits": ["ec9eabe"],
-   "fix_commits": ["253cc2c", "9ab3fcf", "352017a", "2a27235", "75e3c3a", "5afd426", "640e671", "3e314d3", "4dcce54", "d4651f6", "1e93cc9", "b27661e", "b251537", "cfcbc3c", "0360727", "c3020f8", "2a38624", "2db9378", "9af976a", "429dfd3", "20cc4b9"],
+   "fix_commits": ["2ddbd7f", "253cc2c", "9ab3fcf", "352017a", "2a27235", "75e3c3a", "5afd426", "640e671", "3e314d3", "4dcce54", "d4651f6", "1e93cc9", "b27661e", "b251537", "cfcbc3c", "0360727", "c3020f8", "2a38624", "2db9378", "9af976a", "429dfd3", "20cc4b9"],
    "add_only": True,
  },
  "engines": [
